@@ -337,6 +337,10 @@ def parse_rvalue(s):
         ops = []
         if rest.startswith("("):
             ops = [parse_operand(x) for x in split_top(rest[1:-1])]
+        elif rest.startswith("{"):
+            for part in split_top(rest[1:-1]):
+                _, _, op = part.partition(":")
+                ops.append(parse_operand(op))
         return Rvalue("closure", loc, ops)
     # ADT aggregate: Path { f: op, .. } | Path(op, ..) | Path
     if s.endswith("}"):
